@@ -175,6 +175,47 @@ def run(ctx):
                     else:
                         ctx.violation("foreign-pair-accepted", {
                             "T": T, "issued": [s, c], "checked": [s2, c2]})
+        # ---------------- tokens as the framework itself issues them (the
+        # nonce of a 401 answer), for every order in which the settings are
+        # assigned and every secret incl. the empty one and an override
+        import re as _re
+        from implrun import new_app, environ, call
+        from poorwsgi import digest
+        session.sha256 = real_sha
+        for T, secret, order, via_env in itertools.product(
+                (None, 0, 60, "default"), ("k" * 8, "", "0"),
+                ("timeout-first", "type-first"), (False, True)):
+            app = new_app(secret_key="app-level" if via_env else secret)
+            steps = [("auth_timeout", T), ("auth_type", "Digest")]
+            if order == "type-first":
+                steps.reverse()
+            for name, value in steps:
+                if value != "default":
+                    setattr(app, name, value)
+            app.auth_map = {"R": {}}
+            app.set_route("/p", digest.check_digest("R")(lambda req: "in"))
+            extra = {"poor_SecretKey": secret} if via_env else None
+            clock.us = 1000 * 10 ** 6
+            ans = call(app, environ(path="/p", headers={"User-Agent": "ua"},
+                                    extra=extra))
+            found = _re.search(r'nonce="([^"]*)"',
+                               ans.header("WWW-Authenticate") or "")
+            det = {"auth_timeout": T, "secret": secret, "order": order,
+                   "secret_from_environ": via_env, "status": ans.status}
+            ctx.case(("issued-by-401", T, secret, order, via_env), True, det)
+            ctx.count("issued-by-401")
+            if ans.code != 401 or not found:
+                ctx.violation("no-token-issued", det)
+                continue
+            eff = 300 if T == "default" else T
+            for dt, want in ((1, True), (10 ** 6, not eff),
+                             ((eff or 1) * 2, not eff)):
+                got = verify(found.group(1), secret, "ua", eff,
+                             (1000 + dt) * 10 ** 6)
+                if got is not want:
+                    ctx.violation("issued-token-window", dict(
+                        det, seconds_later=dt, verifies=repr(got),
+                        expected=want))
     finally:
         session.time, session.sha256 = real_time, real_sha
     return ctx.finish(
